@@ -1,7 +1,8 @@
 /* Contracts of the typed-access part of src/registers/core.c (properties C01
  * and C05): the 16 serialisers/deserialisers, the constraint checks, the
- * memory-area callbacks, register_setx / register_set / register_set_unsafe /
- * register_get, register_bit_set / register_bit_clear, reg_entry_sane,
+ * memory-area callbacks, register_set / register_set_unsafe (their common body
+ * register_setx is proved inlined into both), register_get,
+ * register_bit_set / register_bit_clear, reg_entry_sane,
  * reg_entry_load_default, register_sanitise.
  *
  * Top-level postconditions are the property statements (spec/registers.h is
@@ -15,11 +16,18 @@
  * "unchanged" is stated for the ghost cell g_cell, an ARBITRARY valid word
  * anywhere (pre-state snapshots need an lvalue that is valid in every case,
  * also for uninitialised tables, hence a ghost pointer and not a path through
- * the table).  g_k is the index of that word in the addressed register's
- * area when it lies there.
+ * the table): a refused operation leaves it unchanged wherever it lies, a
+ * successful one leaves it unchanged unless it is one of the written
+ * register's own words (rt_cell_outside).
  */
 #ifndef CONTRACTS_REGISTERS_TYPED_H
 #define CONTRACTS_REGISTERS_TYPED_H
+#ifdef RT_LOOP_KEYWORDS_HIDDEN   /* see stubs/register_callbacks_pre.h */
+#undef __CPROVER_loop_invariant
+#undef __CPROVER_decreases
+#undef __CPROVER_assigns
+#undef RT_LOOP_KEYWORDS_HIDDEN
+#endif
 #include "spec/registers.h"
 #include "stubs/register_callbacks.h"
 
@@ -356,7 +364,7 @@ static inline bool rt_get_ok(const RegisterTable *t, RegisterHandle idx, uint8_t
     return code == REG_ACCESS_NOENTRY && out_same;
   const RegisterEntry e = t->entry[idx];
   if (e.area->read == st_area_read && ST_REFUSES(rd_verdict))
-    return code == ST_CODE(rd_verdict) && out_same;
+    return code == ST_RD_CODE(rd_verdict) && out_same;
   /* the returned value is the one whose image the backing words are; it is
    * reported invalid iff it is a NaN, infinite or subnormal float */
   return out.type == e.type && rt_holds(t, idx, SPEC_BITS(e.type, out.value))
@@ -420,7 +428,7 @@ static inline bool rt_bitop_code_ok(const RegisterTable *t, RegisterHandle idx, 
   const bool rd_refused = a.read == st_area_read && ST_REFUSES(rd_verdict);
   const bool operand_ok = SPEC_REG_IS_UNSIGNED(e.type) && v.type == e.type;
   if (rd_refused || !operand_ok)
-    return (rd_refused && code == ST_CODE(rd_verdict)) || (!operand_ok && code == REG_ACCESS_INVALID);
+    return (rd_refused && code == ST_RD_CODE(rd_verdict)) || (!operand_ok && code == REG_ACCESS_INVALID);
   const uint64_t mask = SPEC_BITS(e.type, v.value);
   RegisterValue nv;
   nv.type = e.type;
@@ -461,6 +469,89 @@ RegisterAccess register_bit_clear(RegisterTable *t, const RegisterHandle idx, co
 RT_BITOP_CONTRACT(t, idx, v, false)
 ;
 
+/* ---- sanitise: the two per-register steps (pointwise, tier A) ------------------- */
+
+/* RT_ACC(t, reg, bits): the pattern `bits` is acceptable content of register
+ * reg (decodes and meets the constraint).  The contracts of the two steps and
+ * of register_sanitise mention acceptability only through this macro.  The
+ * steps are ENFORCED with the real definition.  The composition
+ * (register_sanitise over the step contracts) is proved with RT_ABSTRACT_ACC:
+ * acceptability is then an uninterpreted predicate of (handle, pattern), so
+ * the solver does not compare several copies of the constraint semantics.
+ * That proof holds for every predicate of (handle, pattern), hence for the
+ * real one, which is such a predicate as long as no entry field other than
+ * `flags` changes -- and no assigns clause involved lists any. */
+#if defined(RT_ABSTRACT_ACC) && !VERIF_IS_NATIVE
+unsigned __CPROVER_uninterpreted_rt_acc(uint32_t reg, uint64_t bits);
+#define RT_ACC(t, reg, bits) ((__CPROVER_uninterpreted_rt_acc((uint32_t)(reg), (uint64_t)(bits)) & 1u) != 0u)
+#else
+#define RT_ACC(t, reg, bits) rt_bits_acceptable(t, reg, bits)
+#endif
+
+/* reg_entry_sane: SUCCESS iff the content of the register is acceptable, else
+ * INVALID (does not decode) or RANGE (violates the constraint); nothing is
+ * written */
+static inline bool rt_sane_code_ok(const RegisterTable *t, RegisterHandle reg, uint8_t rd_verdict, RegisterAccessCode code)
+{
+  if (!RT_INIT(t))
+    return code == REG_ACCESS_UNINITIALISED;
+  if (reg >= t->entries)
+    return code == REG_ACCESS_NOENTRY;
+  const RegisterEntry e = t->entry[reg];
+  if (e.area->read == st_area_read && ST_REFUSES(rd_verdict))
+    return code == ST_RD_CODE(rd_verdict);
+  const uint64_t bits = rt_bits(t, reg);
+  if (RT_ACC(t, reg, bits))
+    return code == REG_ACCESS_SUCCESS;
+#if defined(RT_ABSTRACT_ACC) && !VERIF_IS_NATIVE
+  return code == REG_ACCESS_INVALID || code == REG_ACCESS_RANGE;
+#else
+  RegisterValueU u;
+  u.u64 = bits;
+  return code == (SPEC_FLOAT_OK(e.type, u) ? REG_ACCESS_RANGE : REG_ACCESS_INVALID);
+#endif
+}
+
+static RegisterAccess reg_entry_sane(RegisterTable *t, RegisterHandle reg)
+__CPROVER_requires(__CPROVER_r_ok(t, sizeof(RegisterTable)))
+__CPROVER_requires(IMPLIES(RT_ADDRESSED(t, reg), RT_ENTRY_R_OK(t, reg) && t->entry[reg].check.type != REGV_TYPE_FAIL))
+__CPROVER_assigns(st_rd_verdict)
+__CPROVER_ensures(rt_sane_code_ok(t, reg, __CPROVER_old(st_rd_verdict), __CPROVER_return_value.code))
+;
+
+/* reg_entry_load_default: a checked set of the register's default value: it
+ * succeeds only with an acceptable default, which the register then holds;
+ * it cannot fail with an acceptable default unless the area has no write
+ * callback or the device refuses; a failure changes nothing */
+static inline uint64_t rt_default_bits(const RegisterTable *t, RegisterHandle reg)
+{
+  const RegisterEntry e = t->entry[reg];
+  return SPEC_BITS(e.type, e.default_value);
+}
+
+static inline bool rt_write_possible(const RegisterTable *t, RegisterHandle reg, uint8_t wr_verdict)
+{
+  const registerWrite w = t->entry[reg].area->write;
+  return w != NULL && !(w == st_area_write && ST_REFUSES(wr_verdict));
+}
+
+static RegisterAccess reg_entry_load_default(RegisterTable *t, RegisterHandle reg)
+__CPROVER_requires(__CPROVER_r_ok(t, sizeof(RegisterTable)))
+__CPROVER_requires(__CPROVER_rw_ok(g_cell, sizeof(RegisterAtom)))
+__CPROVER_requires(RT_ADDRESSED(t, reg) && RT_ENTRY_W_OK(t, reg) && t->entry[reg].check.type != REGV_TYPE_FAIL)
+__CPROVER_assigns(st_wr_verdict;
+    SPEC_REG_W1(RT_TY(t, reg)): __CPROVER_object_upto(RT_W(t, reg), 1u * sizeof(RegisterAtom));
+    SPEC_REG_W2(RT_TY(t, reg)): __CPROVER_object_upto(RT_W(t, reg), 2u * sizeof(RegisterAtom));
+    SPEC_REG_W4(RT_TY(t, reg)): __CPROVER_object_upto(RT_W(t, reg), 4u * sizeof(RegisterAtom)))
+__CPROVER_ensures(IMPLIES(__CPROVER_return_value.code == REG_ACCESS_SUCCESS,
+    RT_ACC(t, reg, rt_default_bits(t, reg)) && rt_holds(t, reg, rt_default_bits(t, reg))))
+__CPROVER_ensures(IMPLIES(RT_ACC(t, reg, rt_default_bits(t, reg)) && rt_write_possible(t, reg, __CPROVER_old(st_wr_verdict)),
+    __CPROVER_return_value.code == REG_ACCESS_SUCCESS))
+__CPROVER_ensures(IMPLIES(__CPROVER_return_value.code != REG_ACCESS_SUCCESS, *g_cell == __CPROVER_old(*g_cell)))
+__CPROVER_ensures(IMPLIES(__CPROVER_return_value.code == REG_ACCESS_SUCCESS && rt_cell_outside(t, reg, g_cell),
+    *g_cell == __CPROVER_old(*g_cell)))
+;
+
 /* ---- sanitise (tier B: tables of at most RT_SAN_EMAX registers) ------------------ */
 
 #ifndef RT_SAN_EMAX
@@ -492,10 +583,8 @@ extern RegisterHandle g_reg;     /* ghost: an arbitrary register handle */
  * make sanitise fail at it */
 static inline bool rt_san_cannot_fail(const RegisterTable *t, RegisterHandle i)
 {
-  const RegisterEntry e = t->entry[i];
-  const RegisterArea a = *e.area;
-  return a.read == reg_mem_read && a.write == reg_mem_write
-      && rt_bits_acceptable(t, i, SPEC_BITS(e.type, e.default_value));
+  const RegisterArea a = *t->entry[i].area;
+  return a.read == reg_mem_read && a.write == reg_mem_write && RT_ACC(t, i, rt_default_bits(t, i));
 }
 #define RT_SAN_CANNOT_FAIL(i) IMPLIES((i) < t->entries, rt_san_cannot_fail(t, i))
 #define RT_SAN_CELL_OUTSIDE(i) IMPLIES((i) < t->entries, rt_cell_outside(t, i, g_cell))
@@ -527,11 +616,11 @@ __CPROVER_ensures(IMPLIES(!RT_INIT(t),
  * value, any other is reset to its default; all touched marks are cleared;
  * hence every register now decodes and satisfies its constraint */
 __CPROVER_ensures(IMPLIES(RT_INIT(t) && __CPROVER_return_value.code == REG_ACCESS_SUCCESS && g_reg < t->entries,
-    (rt_bits_acceptable(t, g_reg, g_old_bits)
+    (RT_ACC(t, g_reg, g_old_bits)
        ? rt_bits(t, g_reg) == g_old_bits
-       : rt_holds(t, g_reg, SPEC_BITS(RT_TY(t, g_reg), t->entry[g_reg].default_value)))
+       : rt_holds(t, g_reg, rt_default_bits(t, g_reg)))
     && (t->entry[g_reg].flags & REG_EF_TOUCHED) == 0
-    && rt_bits_acceptable(t, g_reg, rt_bits(t, g_reg))))
+    && RT_ACC(t, g_reg, rt_bits(t, g_reg))))
 /* it can only fail where a default cannot be loaded or a device refuses */
 __CPROVER_ensures(IMPLIES(RT_INIT(t) && RT_SAN_ALL(RT_SAN_CANNOT_FAIL), __CPROVER_return_value.code == REG_ACCESS_SUCCESS))
 /* words that belong to no register are never touched */
